@@ -158,13 +158,13 @@ class BinWriter:
             else:
                 operation, sub = original_op, False
         if operation:
-            address += self._get_size(operation, address, ' ', overwrite, removed, offset, sub, skool_address, self.bvalues)
+            address += self._get_size(operation, address, ' ', overwrite, removed, offset, sub, skool_address, self.bvalues, True)
         for overwrite, operation, append in after:
             if operation:
                 address += self._get_size(operation, address, '+', overwrite, removed, offset)
         return address
 
-    def _get_size(self, operation, address, marker, overwrite=False, removed=None, offset=0, sub=True, skool_address=None, bvalues=None):
+    def _get_size(self, operation, address, marker, overwrite=False, removed=None, offset=0, sub=True, skool_address=None, bvalues=None, main=False):
         if bvalues:
             size = len(bvalues)
         elif operation.upper().startswith(('DJNZ ', 'JR ')):
@@ -176,7 +176,10 @@ class BinWriter:
                 removed.update(range(address + offset, address + offset + size))
                 marker = '|'
             if self.start <= address < self.end:
-                self.instructions.append(Instruction(skool_address, address, operation, sub, self.keep, self.nowarn, bvalues, self.data, marker))
+                # @keep and @nowarn apply to the instruction they precede, not
+                # to instructions inserted before or after it (as in skool2asm)
+                keep, nowarn = (self.keep, self.nowarn) if main else (None, None)
+                self.instructions.append(Instruction(skool_address, address, operation, sub, keep, nowarn, bvalues, self.data, marker))
             return size
         raise SkoolParsingError("Failed to assemble:\n {} {}".format(address, operation))
 
